@@ -34,9 +34,9 @@ MECHANISMS = [
 ]
 REQUIRED_MONITORS = ['one_las_per_log_pass', 'rows_are_selected_frames', 'columns_are_x_plus_requested', 'values_within_print_precision',
                      'start_stop_step', 'readable_by_LASRead', 'only_expected_files_written', 'contract:Slice.indices']
-MIN_NONTRIVIAL = {'quick': 60, 'thorough': 3000}
+MIN_NONTRIVIAL = {'quick': 300, 'thorough': 4000}
 NSHARDS = 16
-SOURCES = {'quick': 7, 'thorough': 400}          # per shard
+SOURCES = {'quick': 40, 'thorough': 500}          # per shard
 SELECTORS = {'quick': 4, 'thorough': 5}
 TIMEOUT_S = {'quick': 400, 'thorough': 3400}
 FORMATS = ['rp66v1'] * 8 + ['bit'] * 4 + ['lis'] * 4
@@ -136,15 +136,21 @@ def check_las(rec, fmt, text, exp, w):
     if idx is not None:
         if len(vals) != len(idx):
             # which frames were written?  (first-column match against the model, for the witness and the classifiers)
-            got = _identify_rows(vals, frames, exp['tol'])
+            got = _identify_rows(vals, frames, exp['tol'], increasing=True)
+            pred = _defective_selection(w['selector_kind'], tuple(w['selector_args']), len(frames))
+            by_formula = len(vals) == len(pred) and all(row_matches(vals[r], pred[r]) for r in range(len(pred)))
             rec.violation('rows_are_selected_frames', 'row-count', '%s: %d rows written, selector %s on %d frames selects %d (written frames %s, expected %s)' % (
-                fmt, len(vals), w.get('selector'), len(frames), len(idx), got[:12], idx[:12]), dict(w, written_frames=got, expected_frames=idx, nframes=len(frames)))
+                fmt, len(vals), w.get('selector'), len(frames), len(idx), got[:12], idx[:12]),
+                          dict(w, written_frames=got, expected_frames=idx, nframes=len(frames), last_formula_frames=pred, rows_match_last_formula=by_formula))
             return
         rec.mon('values_within_print_precision', len(vals) * len(want))
         for r, fi in enumerate(idx):
             if not row_matches(vals[r], fi):
-                got = _identify_rows(vals, frames, exp['tol'])
+                got = _identify_rows(vals, frames, exp['tol'], increasing=True)
                 c = next(c for c in range(len(want)) if abs(vals[r][c] - frames[fi][c]) > exp['tol'][fi][c])
+                pred = _defective_selection(w['selector_kind'], tuple(w['selector_args']), len(frames))
+                by_formula = len(vals) == len(pred) and all(row_matches(vals[q], pred[q]) for q in range(len(pred)))
+                w = dict(w, last_formula_frames=pred, rows_match_last_formula=by_formula)
                 kind = 'wrong-frames' if got != idx and None not in got else 'value'
                 rec.violation('rows_are_selected_frames' if kind == 'wrong-frames' else 'values_within_print_precision', kind,
                               '%s: row %d column %s is %s, source frame %d has %s (tolerance %s); rows look like source frames %s, expected %s' % (
@@ -155,7 +161,15 @@ def check_las(rec, fmt, text, exp, w):
         written = idx
     else:
         # Sample(N): at most N rows, strictly increasing subsequence of the source starting with frame 0
-        got = _identify_rows(vals, frames, exp['tol'], increasing=True)
+        got = None
+        for hint in exp.get('sample_hints', []):
+            # the real selector's own index list is only a *hint* to disambiguate rows that look alike at the print precision:
+            # every hinted row is still verified against the model values
+            if len(hint) == len(vals) and all(0 <= h < len(frames) and row_matches(vals[r], h) for r, h in enumerate(hint)):
+                got = list(hint)
+                break
+        if got is None:
+            got = _identify_rows(vals, frames, exp['tol'], increasing=True)
         rec.mon('values_within_print_precision', len(vals) * len(want))
         bad = None
         if len(vals) > exp['sample_max'] or len(vals) == 0:
@@ -169,12 +183,27 @@ def check_las(rec, fmt, text, exp, w):
             return
         written = got
     # ---- STRT / STOP / STEP
+    if exp.get('skip_start_stop'):
+        rec.cls('unevenly spaced X (start/stop not asserted)')
+        return
     rec.mon('start_stop_step')
-    wsec = {m.strip(): (u, v) for m, u, v, d in tok.get('W', [])}
+    # a unit with an embedded blank ('0.1 in', legal in RP66V1) pushes its tail into the value field: the number is the last token
+    wsec = {m.strip(): (u, (v.split() or [''])[-1]) for m, u, v, d in tok.get('W', [])}
     x = exp['x']
     x_first, x_last = x[written[0]], x[written[-1]]
     facts = {'written_first': written[0], 'written_last': written[-1], 'rows': len(written), 'nframes': len(frames),
              'x_first': float(x_first), 'x_last': float(x_last), 'x_all_first': float(x[0]), 'x_all_last': float(x[-1])}
+    # the well section may state start/stop/step in another unit than the X column (LIS: 'optical' units): convert exactly
+    ufac = Fraction(1)
+    if exp.get('x_unit_factor') is not None and 'STRT' in wsec:
+        ufac = exp['x_unit_factor'](wsec['STRT'][0])
+        if ufac is None:
+            rec.cls('start/stop unit not convertible by the harness (not asserted)')
+            return
+        facts['unit_factor'] = float(ufac)
+        facts['well_unit'] = wsec['STRT'][0]
+    x_first, x_last = x_first * ufac, x_last * ufac
+    facts.update(x_first=float(x_first), x_last=float(x_last), x_all_first=float(x[0] * ufac), x_all_last=float(x[-1] * ufac))
     for key, want_v in (('STRT', x_first), ('STOP', x_last)):
         if key not in wsec or not _isnum(wsec[key][1]):
             rec.violation('start_stop_step', 'missing', '%s: well section has no numeric %s (%s)' % (fmt, key, wsec.get(key)), dict(w, key=key, well=sorted(wsec), **facts))
@@ -195,6 +224,12 @@ def check_las(rec, fmt, text, exp, w):
         if abs(gotv - want_step) > exp['x_tol'](want_step) + exp['x_tol'](x_last - x_first):
             rec.violation('start_stop_step', 'STEP', '%s: STEP is %s but the mean spacing of the %d rows written is %s' % (fmt, wsec['STEP'][1], len(written), float(want_step)),
                           dict(w, key='STEP', got=float(gotv), expected=float(want_step), **facts))
+
+
+def _hints(S, kind, args, n):
+    if kind != 'sample':
+        return []
+    return [S.Sample(*args).indices(n), _defective_selection('sample', args, n)]
 
 
 def _isnum(t):
@@ -228,7 +263,11 @@ def readable(rec, fmt, path, w):
         xcol = [r[0] for r in glas.tokenize(open(path).read())['rows'] if r]
     except Exception:
         xcol = []
-    if len(set(xcol)) != len(xcol):
+    try:
+        xnum = [Fraction(t) for t in xcol]
+    except (ValueError, ZeroDivisionError):
+        xnum = xcol
+    if len(set(xnum)) != len(xnum):
         # LASRead refuses duplicate index values by design; a decimal format too coarse for the X spacing is the caller's choice
         rec.cls('x-values-collide-at-print-precision (readability not asserted)')
         return
@@ -236,7 +275,14 @@ def readable(rec, fmt, path, w):
     try:
         LASRead.LASRead(path)
     except Exception as e:
-        rec.violation('readable_by_LASRead', type(e).__name__, '%s: LASRead can not read the converted file: %s' % (fmt, str(e)[:200]), dict(w, las=open(path).read()[:2000]), exc=e)
+        text = open(path).read()
+        fused = None
+        try:
+            fused = next((t for r in glas.tokenize(text)['rows'] for t in r if t.count('.') >= 2), None)
+        except Exception:
+            pass
+        rec.violation('readable_by_LASRead', type(e).__name__, '%s: LASRead can not read the converted file: %s' % (fmt, str(e)[:200]),
+                      dict(w, las=text[:2000], fused_token=fused), exc=e)
 
 
 # ---------------------------------------------------------------------------------------------- reductions
@@ -258,6 +304,29 @@ def reduce_exact(arr, method):
 
 
 # ---------------------------------------------------------------------------------------------- per format legs
+class LogCapture:
+    """Keeps the last messages the converters log (they swallow exceptions and log them)."""
+    def __init__(self):
+        import logging
+
+        class H(logging.Handler):
+            def emit(h, record):
+                try:
+                    msg = record.getMessage()
+                    if record.exc_info and record.exc_info[1] is not None:
+                        msg += ' | %s: %s' % (type(record.exc_info[1]).__name__, record.exc_info[1])
+                    self.messages.append(msg[:400])
+                    del self.messages[:-6]
+                except Exception:
+                    pass
+        self.messages = []
+        logging.getLogger().addHandler(H(level=logging.ERROR))
+
+    def take(self):
+        out, self.messages = list(self.messages), []
+        return out
+
+
 class OpenAudit:
     """M5: which files does the conversion open for writing?"""
     def __init__(self):
@@ -354,6 +423,7 @@ def run_rp66v1(ctx, p, audit):
                 xs = [Fraction(float(fr.values[0].flatten()[0])) for fr in ft.frames]
                 exp = {'columns': [names[ci] for ci in cols], 'frames': frames, 'tol': tols, 'indices': expected_indices(kind, args, n),
                        'sample_max': args[0] if kind == 'sample' else None, 'x': xs,
+                       'sample_hints': _hints(S, kind, args, n),
                        'x_tol': lambda v: abs(v) * Fraction(1, 10 ** 6) + Fraction(1, 10 ** 9)}
                 ww = dict(w, logical_file=lfi, frame_type=ft.name[2].decode('ascii'), nframes=n, channel_names=names,
                           channel_types=[c.dtype for c in ft.channels], dims=[list(c.dims) for c in ft.channels])
@@ -444,6 +514,7 @@ def run_bit(ctx, p, audit):
                     tols.append([Fraction(1, 2 * 10 ** d) + abs(v) * Fraction(2, 10 ** 7) + Fraction(1, 10 ** 12) for v in row])
                 exp = {'columns': [names[ci] for ci in cols], 'frames': frames, 'tol': tols, 'indices': expected_indices(kind, args, pm.frames),
                        'sample_max': args[0] if kind == 'sample' else None, 'x': xs,
+                       'sample_hints': _hints(S, kind, args, pm.frames),
                        'x_tol': lambda v: abs(v) * Fraction(1, 10 ** 6) + Fraction(1, 10 ** 9)}
                 ww = dict(w, nframes=pm.frames, channel_names=names)
                 with open(path) as f:
@@ -468,6 +539,13 @@ def run_lis(ctx, p, audit):
         for _ in range(20):
             lay = glis.random_layout(rng, allow_be=False)
             data, fm = glis.random_file(rng, allow_be=False, layout=lay)
+            if any(e[2] == b'CONS' for e in fm.index):
+                # the converter starts a new output file at every CONS table (its documented notion of a logical file); a CONS table
+                # after the data would give a header-only LAS: not the subject of this property
+                rec.cls('lis file with a CONS table skipped')
+                continue
+            if any(lp.indirect and any(ch.mnem.strip() == b'X' for ch in lp.channels) for lp in fm.logpasses):
+                continue    # the converter names the implied X axis 'X': a recorded channel of that name would collide
             if fm.logpasses and all(lp.total >= 1 for lp in fm.logpasses):
                 break
         else:
@@ -493,8 +571,9 @@ def run_lis(ctx, p, audit):
             path_out = os.path.join(out_dir, 's%d.lis' % si)
             w = {'format': 'lis', 'selector': '%s%s' % (kind, args), 'selector_kind': kind, 'selector_args': list(args), 'channels': chans,
                  'reduction': method, 'field_width': width, 'float_format': ffmt, 'layout': fm.layout.describe(),
-                 'passes': [{'frames': lp.total, 'indirect_x': lp.indirect, 'channels': [(ch.mnem.decode('ascii'), ch.rc, ch.samples, ch.bursts) for ch in lp.channels]} for lp in passes]}
+                 'passes': [{'frames': lp.total, 'records': len(lp.frames_per_record), 'indirect_x': lp.indirect, 'channels': [(ch.mnem.decode('ascii'), ch.rc, ch.samples, ch.bursts) for ch in lp.channels]} for lp in passes]}
             audit.paths, audit.active = [], True
+            audit.log.take()
             try:
                 res = ToLAS.single_lis_file_to_las(src, method, path_out, make_selector(S, kind, args), set(chans), width, ffmt)
             except Exception as e:
@@ -508,7 +587,8 @@ def run_lis(ctx, p, audit):
             if res.exception or res.ignored or res.las_count != len(passes) or len(got_files) != len(passes):
                 rec.violation('one_las_per_log_pass', 'file-set', 'lis: result exception=%s ignored=%s las_count=%d, %d files, expected %d LAS files (one per log pass)' % (
                     res.exception, res.ignored, res.las_count, len(got_files), len(passes)),
-                              dict(w, result_exception=bool(res.exception), result_ignored=bool(res.ignored), las_count=res.las_count, nfiles=len(got_files), npasses=len(passes)))
+                              dict(w, result_exception=bool(res.exception), result_ignored=bool(res.ignored), las_count=res.las_count, nfiles=len(got_files), npasses=len(passes),
+                                   logged=audit.log.take()))
                 if res.exception or not got_files:
                     _rm(out_dir)
                     continue
@@ -547,10 +627,30 @@ def run_lis(ctx, p, audit):
                                 row.append(sum(vals) / len(vals))
                     frames.append(row)
                     tols.append([Fraction(1, 2 * 10 ** d) + abs(v) * Fraction(1, 10 ** 12) + Fraction(1, 10 ** 12) for v in row])
+                stepped = (kind == 'sample' and args[0] < lp.total) or (kind == 'slice' and (args[2] or 1) > 1)
+                if lp.indirect and stepped:
+                    # implied X of a stepped selection is finding F15 of C06 (wrong after a record boundary): not asserted twice
+                    rec.cls('lis implied X under a stepped selection (X column owned by C06/F15, not asserted here)')
+                    for trow in tols:
+                        trow[0] = Fraction(10) ** 400
+
+                def x_unit_factor(unit_text, _xu=lp.x_units):
+                    u = unit_text.encode('ascii', 'replace').ljust(4)[:4]
+                    if u == _xu:
+                        return Fraction(1)
+                    try:
+                        return glis.unit_factor(_xu, u)
+                    except (KeyError, AssertionError):
+                        return None
                 exp = {'columns': [c[0] for c in cols], 'frames': frames, 'tol': tols, 'indices': expected_indices(kind, args, lp.total),
+                       'x_unit_factor': x_unit_factor, 'sample_hints': _hints(S, kind, args, lp.total),
                        'sample_max': args[0] if kind == 'sample' else None, 'x': xs if lp.indirect or lp.x_even else [f[0] for f in frames],
                        'x_tol': lambda v: abs(v) * Fraction(1, 10 ** 5) + Fraction(1, 10 ** 3), 'check_heading': False}
-                ww = dict(w, nframes=lp.total, channel_names=names, indirect_x=lp.indirect, pass_index=passes.index(lp))
+                ww = dict(w, nframes=lp.total, channel_names=names, indirect_x=lp.indirect, pass_index=passes.index(lp), data_records=len(lp.frames_per_record))
+                if not lp.x_even or any(lp.record_gaps):
+                    # the LIS index only knows the first X of every record: start/stop are extrapolated, which C06 states to be
+                    # meaningful for evenly spaced frames only
+                    exp['skip_start_stop'] = True
                 with open(path) as f:
                     text = f.read()
                 check_las(rec, 'lis', text, exp, ww)
@@ -572,6 +672,7 @@ def run_shard(ctx, p):
     from tdv.mon import contracts
     contracts.install_slice_contracts()
     audit = OpenAudit()
+    audit.log = LogCapture()
     {'rp66v1': run_rp66v1, 'bit': run_bit, 'lis': run_lis}[p['fmt']](ctx, p, audit)
     for name, cnt in contracts.COUNTS.items():
         ctx.rec.mon('contract:' + name, cnt)
@@ -586,6 +687,80 @@ def _c11_strp(v):
     w = v.get('witness') or {}
     return (v['monitor'] == 'start_stop_step' and v['kind'] == 'STEP-missing' and w.get('format') == 'bit'
             and sorted(w.get('well') or []) == ['STOP', 'STRP', 'STRT'])
+
+
+def _defective_selection(kind, args, n):
+    """Frames selected by slice(first, last()+1, step) with the repository's Slice.last()/Sample.last() formulas (finding F8)."""
+    if kind == 'slice':
+        a, b, c = slice(*args).indices(n)
+        last = n - 1 if n < b else c * (b // c) - 1
+        return list(range(n))[a:last + 1:c]
+    k = args[0]
+    last = n - 1 if k >= n else n - k
+    step = 1 if k >= n else n // k
+    return list(range(n))[0:last + 1:step]
+
+
+@classifier('c11_lis_rows_by_last_formula')
+def _c11_lis_rows(v):
+    """LIS ToLAS loads slice(first, last()+1, step): rows differ from the Python slice exactly as that formula predicts."""
+    w = v.get('witness') or {}
+    if w.get('format') != 'lis' or v['monitor'] != 'rows_are_selected_frames' or v['kind'] not in ('row-count', 'wrong-frames'):
+        return False
+    if w.get('selector_kind') != 'slice' or w.get('channels'):
+        return False
+    pred = _defective_selection('slice', tuple(w['selector_args']), w['nframes'])
+    return pred != w.get('expected_frames') and w.get('last_formula_frames') == pred and w.get('rows_match_last_formula') is True
+
+
+@classifier('c11_lis_channel_subset_raises')
+def _c11_lis_channels(v):
+    """LIS ToLAS hands the requested channel *names* to LogPass.setFrameSet, which expects channel indexes: any non-empty subset fails."""
+    w = v.get('witness') or {}
+    return (w.get('format') == 'lis' and v['monitor'] == 'one_las_per_log_pass' and v['kind'] == 'file-set' and bool(w.get('channels'))
+            and w.get('result_exception') is True
+            and any('list indices must be integers or slices, not str' in m or "'set' object has no attribute 'append'" in m for m in (w.get('logged') or [])))
+
+
+@classifier('c11_lis_no_column_separator')
+def _c11_lis_fused(v):
+    """LIS ToLAS writes data values right-justified in the field with no separating blank: a value as wide as the field fuses with its neighbour."""
+    w = v.get('witness') or {}
+    if w.get('format') != 'lis':
+        return False
+    if v['monitor'] == 'columns_are_x_plus_requested' and v['kind'] == 'row-width':
+        row = w.get('row') or []
+        return len(row) < len(w.get('expected') or []) and any(t.count('.') >= 2 for t in row)
+    if v['monitor'] == 'readable_by_LASRead' and 'columns but found' in v['msg']:
+        return bool(w.get('fused_token')) and w['fused_token'].count('.') >= 2
+    return False
+
+
+@classifier('c11_lis_start_stop_of_whole_pass')
+def _c11_lis_whole_pass(v):
+    """LIS ToLAS writes STRT/STOP of the whole log pass (and STEP = pass spacing x slice step), not of the rows written."""
+    w = v.get('witness') or {}
+    if w.get('format') != 'lis' or v['monitor'] != 'start_stop_step' or v['kind'] not in ('STRT', 'STOP'):
+        return False
+    ref = w.get('x_all_first') if v['kind'] == 'STRT' else w.get('x_all_last')
+    moved = (w.get('written_first') != 0) if v['kind'] == 'STRT' else (w.get('written_last') != w.get('nframes', 0) - 1)
+    return moved and ref is not None and abs(w['got'] - ref) <= abs(ref) * 1e-5 + 2e-3
+
+
+@classifier('c11_lis_stop_zero_single_record')
+def _c11_lis_stop0(v):
+    """LIS ToLAS takes STOP from the file index, which cannot extrapolate a last X for a log pass held in one data record: STOP is 0."""
+    w = v.get('witness') or {}
+    return (w.get('format') == 'lis' and v['monitor'] == 'start_stop_step' and v['kind'] == 'STOP' and w.get('data_records') == 1
+            and w.get('got') == 0 and w.get('expected') != 0)
+
+
+@classifier('c11_lis_one_las_for_several_log_passes')
+def _c11_lis_passes(v):
+    """LIS ToLAS groups log passes by CONS tables: a file with several log passes and no CONS table between them gets one LAS file."""
+    w = v.get('witness') or {}
+    return (w.get('format') == 'lis' and v['monitor'] == 'one_las_per_log_pass' and v['kind'] == 'file-set' and not w.get('channels')
+            and w.get('result_exception') is False and w.get('npasses', 0) > 1 and w.get('nfiles') == 1 and w.get('las_count') == 1)
 
 
 LEVEL_TEXT = ('Generated RP66V1, LIS and BIT sources are converted by the real single-file converters for random selectors, channel subsets, '
